@@ -137,6 +137,14 @@ def info_key(ctx, rule="INFO-KEY"):
                 re.search(r"HashSet::<T, S, A>::insert$", cname(prog, t)) and "Vec<internal::value::Value>" in (t.get("written") or "") for b, t in f.calls())
             srt = [t for b, t in f.calls() if re.search(r"<impl \[T\]>::sort_by(_cached)?_key$", t.get("callee") or "") and "Vec<internal::value::Value>" in (t.get("written") or "")]
             via_set = dup and len(srt) == 1
+            if via_set and not (via_err or via_map):
+                # the duplicate test and the re-sort must not depend on the WHERE clause: a conditional update can collide keys as well
+                sites = [b for b, t in f.calls() if re.search(r"HashSet::<T, S, A>::contains$", cname(prog, t))] + [b for b, t in f.calls() if t in srt]
+                for b in sites:
+                    bad = [e for (e, tr, g) in S.bool_facts_at(b) if re.search(r"\.condition\b", e)]
+                    ctx.check(not bad, rule, "%s: key test independent of the WHERE clause" % short(f.name), "", "the duplicate-key test / re-sort of %s runs only under a condition on the "
+                              "statement's WHERE clause (%s): an update that assigns a key column under the other form can leave duplicate or unsorted keys" % (short(f.name), bad[:1]),
+                              f.loc(), fn=f.name, key="%s|%s|where-independent" % (rule, short(f.name)))
             ok = via_err or via_map or via_set
             how = "key test leads to an error" if via_err else ("rows keyed by the primary-key vector in a BTreeMap" if via_map else (
                 "duplicate test on the key vectors + re-sort by key" if via_set else ""))
@@ -426,3 +434,29 @@ def deep_call_names(S, v, depth=0):
                 out += deep_call_names(S, S.val(a), depth + 1)
     out += re.findall(r"(internal::[A-Za-z_:]+)\(", v)
     return out
+
+
+def cap_panic_guard(ctx, rule="CAP-GUARD"):
+    """the recorded capacity panics of StringPool::incref stay confined to 'a new entry is needed and the pool is full'"""
+    from .panic import sites_of
+    from ..lib import interval_of
+    prog = ctx.prog
+    ctx.rule(rule, "the deliberate capacity panics of StringPool::incref (a recorded finding) are reached only when the pool has been searched in vain for a free or equal entry "
+                   "(loop-exhaustion edge) AND the number of entries has reached the limit of the reference width (>= 65535 with two-byte references, >= 2^24-1 otherwise): "
+                   "re-using an entry, or inserting below the limit, never panics")
+    f = prog.fn("msi::internal::stringpool::StringPool::incref")
+    S = Sym(prog, f)
+    n = 0
+    for s in sites_of(prog, f):
+        if not s.cls.startswith("call:panic"):
+            continue
+        n += 1
+        fs = S.bool_facts_at(s.block)
+        exhausted = any(re.search(r"::next\)$", e) and tr == ("==", 0) for (e, tr, g) in fs)
+        lo, hi, ex = interval_of(fs, "std::vec::Vec::<T, A>::len(&*p1.strings)")
+        ok = exhausted and lo in (65535, 16777215)
+        ctx.check(ok, rule, "incref capacity panic at the limit only", "after the search, len >= %s" % lo,
+                  "a capacity panic of StringPool::incref is reachable %s: inserting a string that is already in the pool, or into a pool below the limit, can panic" % (
+                      "before the pool has been searched for an existing or free entry" if not exhausted else "without the length test against the reference-width limit (lower bound %s)" % lo),
+                  s.loc, fn=f.name, key="%s|%s" % (rule, "early" if not exhausted else "nolimit"))
+    ctx.floor(rule, "capacity panics in incref", n, 1)
